@@ -124,7 +124,10 @@ class CachingLoaderMixin(ABC, _CachingLoaderProtocol):
         shallow copy sharing the parsed nodes is returned instead.
         """
         global_data = globals or {}
-        if cached_template.global_data == global_data:
+        # Equal is not enough. `{"x": 1} == {"x": True}`, but they render differently.
+        if cached_template.global_data is global_data or (
+            not cached_template.global_data and not global_data
+        ):
             return cached_template
         template = copy.copy(cached_template)
         template.global_data = global_data
